@@ -54,18 +54,14 @@ theorem endEmitted_sub (s : St) (a : Arm) (h : a ∈ s.endEmitted) : a ∈ s.arm
   · exact h
   · split at h
     · next a' he =>
-      simp only [List.mem_singleton] at h
-      subst h
-      simp only [St.endArm] at he
-      split at he
-      · next a'' hsel =>
+      split at h
+      · simp at h
+      · simp only [List.mem_singleton] at h
+        subst h
+        simp only [St.endArm] at he
         split at he
-        · exact absurd he (by simp)
-        · simp only [Option.some.injEq] at he; subst he
-          split at hsel
-          · next a3 hf => simp only [Option.some.injEq] at hsel; subst hsel; exact List.mem_of_find?_eq_some hf
-          · simp only [St.elseArm] at hsel; exact List.mem_of_find?_eq_some hsel
-      · exact absurd he (by simp)
+        · next a3 hf => simp only [Option.some.injEq] at he; subst he; exact List.mem_of_find?_eq_some hf
+        · simp only [St.elseArm] at he; exact List.mem_of_find?_eq_some he
     · simp at h
 
 theorem fall_label_mem (M : Machine) (strict : Bool) (a : Arm) (ha : a ∈ M.allArms)
